@@ -111,8 +111,11 @@ func (r *rule) compile() error {
 		escSL += `\`
 	}
 
+	// prev is the pattern character before ch (0 at the start of the pattern)
+	prev := rune(0)
 	for scan.Peek() != scanner.EOF {
 		ch := scan.Next()
+		cur := ch
 		if ch == '*' {
 			if scan.Peek() == '*' {
 				// is some flavor of "**"
@@ -121,6 +124,7 @@ func (r *rule) compile() error {
 				// Treat **/ as ** so eat the "/"
 				if string(scan.Peek()) == sl {
 					scan.Next()
+					cur = os.PathSeparator
 				}
 
 				if scan.Peek() == scanner.EOF {
@@ -132,6 +136,11 @@ func (r *rule) compile() error {
 					// the .* will eat everything, even /'s
 					regStr += "(.*" + escSL + ")?"
 				}
+			} else if (prev == 0 || prev == os.PathSeparator) &&
+				(scan.Peek() == scanner.EOF || string(scan.Peek()) == sl) {
+				// is "*" standing for a whole path segment: a segment is never
+				// empty, so "dir/*" must not match "dir/" itself
+				regStr += "[^" + escSL + "]+"
 			} else {
 				// is "*" so map it to anything but "/"
 				regStr += "[^" + escSL + "]*"
@@ -151,16 +160,19 @@ func (r *rule) compile() error {
 				// and then just continue because filepath.Match on
 				// Windows doesn't allow escaping at all
 				regStr += escSL
+				prev = ch
 				continue
 			}
 			if scan.Peek() != scanner.EOF {
-				regStr += `\` + string(scan.Next())
+				cur = scan.Next()
+				regStr += `\` + string(cur)
 			} else {
 				regStr += `\`
 			}
 		} else {
 			regStr += string(ch)
 		}
+		prev = cur
 	}
 
 	regStr += "$"
